@@ -364,11 +364,6 @@ structure PChild where
   name : Bytes
   deriving Repr, DecidableEq, Inhabited
 
-inductive PRes (σ : Type) where
-  | done (s : σ) (ret : Except Nat Unit)
-  /-- `offset + 1` overflows `u64` (a panic when overflow checks are on) -/
-  | panic
-
 def pseudoLoop {σ : Type} (cb : Cb σ) : List PChild → Nat → σ → σ × Except Nat Unit
   | [], _, s => (s, .ok ())
   | c :: rest, next, s =>
@@ -378,20 +373,19 @@ def pseudoLoop {σ : Type} (cb : Cb σ) : List PChild → Nat → σ → σ × E
     | .ok _ => pseudoLoop cb rest (next + 1) s'
     | .err e => (s', .error e)
 
-def pseudoReaddir {σ : Type} (children : List PChild) (size offset : Nat) (cb : Cb σ) (s0 : σ) : PRes σ :=
-  if size = 0 then .done s0 (.ok ())
-  else if offset + 1 ≥ 2 ^ 64 then .panic
-  else if offset ≥ children.length then .done s0 (.ok ())
-  else
-    let (s, r) := pseudoLoop cb (children.drop offset) (offset + 1) s0
-    .done s r
+/-- `PseudoFs::do_readdir`; `next = offset + 1` is computed after the bounds check (fix e2b0675),
+    so no offset can overflow it -/
+def pseudoReaddir {σ : Type} (children : List PChild) (size offset : Nat) (cb : Cb σ) (s0 : σ) :
+    σ × Except Nat Unit :=
+  if size = 0 then (s0, .ok ())
+  else if offset ≥ children.length then (s0, .ok ())
+  else pseudoLoop cb (children.drop offset) (offset + 1) s0
 
-/-- one READDIR(PLUS) on a pseudo directory; `none` = panic -/
+/-- one READDIR(PLUS) on a pseudo directory -/
 def pseudoRead (children : List PChild) (plus : Bool) (size offset : Nat) (errAt : Option Nat) :
-    Option (Except Nat (List Offer)) :=
+    Except Nat (List Offer) :=
   match pseudoReaddir children size offset (srvCb size plus errAt) ({} : Acc) with
-  | .panic => none
-  | .done a (.ok ()) => some (.ok a.out)
-  | .done _ (.error e) => some (.error e)
+  | (a, .ok ()) => .ok a.out
+  | (_, .error e) => .error e
 
 end Fbr.PtDir
